@@ -9,8 +9,12 @@ expression and the dt expression are classified:
                            factory's inner function returns `<...>.ravel() / coef` and every assignment to `coef`
                            in the calling function is a real constant
              OpDivImag     the same, but some assignment to `coef` is an imaginary constant (H / 1j is anti-Hermitian)
+             OpCoefCancelled  lambda y: <f>(y) * <c>  (or <c> * <f>(y)) where <f> is such a local function whose factory call passes
+                           the SAME name <c> as `coef`, and every assignment to <c> is a non-zero numeric literal:
+                           (H_eff y / c) * c = H_eff y, the Hermitian effective Hamiltonian
              OpUnknown     anything else
-  dt         DtImagConst   (+-1j) * <name> / <int>
+  dt         DtOverCoef    <name> / <c> with the same <c> as in OpCoefCancelled (the factor 1/coef sits in dt)
+             DtImagConst   (+-1j) * <name> / <int>
              DtCoeffTau    coeff * tau
              DtName        <name>
              DtUnknown     anything else
@@ -121,6 +125,62 @@ def _factory_divides_by_coef(module):
     return None
 
 
+def _nonzero_literal(v):
+    if isinstance(v, ast.UnaryOp) and isinstance(v.op, (ast.USub, ast.UAdd)):
+        return _nonzero_literal(v.operand)
+    return isinstance(v, ast.Constant) and not isinstance(v.value, bool) and isinstance(v.value, (int, float, complex)) and v.value != 0
+
+
+def _factory_local(outer, fname_local, module):
+    """`fname_local` must be a unique local def of `outer` of the shape
+           def f(y): func = integrand_func_factory(..., <c>, ...); return func(0, y)
+       with the factory's inner function returning `<expr>.ravel() / coef`.  Returns (c, kinds of the literals bound to c, their nodes)
+       or a string saying why not."""
+    defs = [n for n in ast.walk(outer) if isinstance(n, ast.FunctionDef) and n.name == fname_local and n is not outer]
+    if len(defs) != 1 or _assignments(outer, fname_local):
+        return "%s is not a unique local def" % fname_local
+    d = defs[0]
+    if len(d.args.args) != 1 or d.args.vararg or d.args.kwarg or d.args.kwonlyargs or d.args.defaults:
+        return "local def signature"
+    y = d.args.args[0].arg
+    body = [s for s in d.body if not (isinstance(s, ast.Expr) and isinstance(s.value, ast.Constant))]
+    if not (len(body) == 2 and isinstance(body[0], ast.Assign) and len(body[0].targets) == 1
+            and isinstance(body[0].targets[0], ast.Name) and isinstance(body[1], ast.Return)):
+        return "local def body"
+    fname = body[0].targets[0].id
+    call = body[0].value
+    ret = body[1].value
+    if not (isinstance(call, ast.Call) and isinstance(call.func, ast.Name) and call.func.id == "integrand_func_factory"):
+        return "local def does not use integrand_func_factory"
+    if not (isinstance(ret, ast.Call) and isinstance(ret.func, ast.Name) and ret.func.id == fname and len(ret.args) == 2
+            and isinstance(ret.args[1], ast.Name) and ret.args[1].id == y and not ret.keywords):
+        return "local def return"
+    fac = _factory_divides_by_coef(module)
+    if fac is None:
+        return "integrand_func_factory not found in module"
+    pos, _ = fac
+    coef_arg = None
+    if pos < len(call.args):
+        coef_arg = call.args[pos]
+    for kw in call.keywords:
+        if kw.arg == "coef":
+            coef_arg = kw.value
+    if not isinstance(coef_arg, ast.Name):
+        return "coef argument is not a name"
+    if _assignments(d, coef_arg.id) or coef_arg.id == y:
+        return "coef rebound inside the local def"
+    vals = _assignments(outer, coef_arg.id)
+    if not vals:
+        return "coef unbound"
+    kinds = set()
+    for v in vals:
+        k = None if isinstance(v, tuple) else _const_kind(v)
+        if k is None or not _nonzero_literal(v):
+            return "coef bound to something that is not a non-zero literal"
+        kinds.add(k)
+    return coef_arg.id, kinds, vals
+
+
 def classify_op(node, funcs, module):
     if isinstance(node, ast.Lambda):
         a = node.args
@@ -128,6 +188,21 @@ def classify_op(node, funcs, module):
             return "OpUnknown", "lambda signature"
         y = a.args[0].arg
         b = node.body
+        # <f>(y) * <c>   or   <c> * <f>(y)
+        if isinstance(b, ast.BinOp) and isinstance(b.op, ast.Mult):
+            for fcall, cn in ((b.left, b.right), (b.right, b.left)):
+                if (isinstance(fcall, ast.Call) and isinstance(fcall.func, ast.Name) and len(fcall.args) == 1 and not fcall.keywords
+                        and isinstance(fcall.args[0], ast.Name) and fcall.args[0].id == y and isinstance(cn, ast.Name) and cn.id != y):
+                    if not funcs:
+                        return "OpUnknown", "call outside a function"
+                    info = _factory_local(funcs[0], fcall.func.id, module)
+                    if isinstance(info, str):
+                        return "OpUnknown", info
+                    cname, kinds, vals = info
+                    if cname != cn.id:
+                        return "OpUnknown", "multiplies by %s but the factory divides by %s" % (cn.id, cname)
+                    return "OpCoefCancelled", "coef=" + cname
+            return "OpUnknown", "product is not <f>(y) * <c>"
         # <h>(y.reshape(<shape>)).ravel()
         if not (isinstance(b, ast.Call) and not b.args and not b.keywords and isinstance(b.func, ast.Attribute)
                 and b.func.attr == "ravel"):
@@ -156,55 +231,21 @@ def classify_op(node, funcs, module):
     if isinstance(node, ast.Name):
         if not funcs:
             return "OpUnknown", "call outside a function"
-        outer = funcs[0]
-        defs = [n for n in ast.walk(outer) if isinstance(n, ast.FunctionDef) and n.name == node.id and n is not outer]
-        if len(defs) != 1 or _assignments(outer, node.id):
-            return "OpUnknown", "%s is not a unique local def" % node.id
-        d = defs[0]
-        if len(d.args.args) != 1 or d.args.vararg or d.args.kwarg:
-            return "OpUnknown", "local def signature"
-        y = d.args.args[0].arg
-        body = [s for s in d.body if not (isinstance(s, ast.Expr) and isinstance(s.value, ast.Constant))]
-        # func = integrand_func_factory(...); return func(0, y)
-        if not (len(body) == 2 and isinstance(body[0], ast.Assign) and len(body[0].targets) == 1
-                and isinstance(body[0].targets[0], ast.Name) and isinstance(body[1], ast.Return)):
-            return "OpUnknown", "local def body"
-        fname = body[0].targets[0].id
-        call = body[0].value
-        ret = body[1].value
-        if not (isinstance(call, ast.Call) and isinstance(call.func, ast.Name) and call.func.id == "integrand_func_factory"):
-            return "OpUnknown", "local def does not use integrand_func_factory"
-        if not (isinstance(ret, ast.Call) and isinstance(ret.func, ast.Name) and ret.func.id == fname and len(ret.args) == 2
-                and isinstance(ret.args[1], ast.Name) and ret.args[1].id == y and not ret.keywords):
-            return "OpUnknown", "local def return"
-        fac = _factory_divides_by_coef(module)
-        if fac is None:
-            return "OpUnknown", "integrand_func_factory not found in module"
-        pos, _ = fac
-        coef_arg = None
-        if pos < len(call.args):
-            coef_arg = call.args[pos]
-        for kw in call.keywords:
-            if kw.arg == "coef":
-                coef_arg = kw.value
-        if not isinstance(coef_arg, ast.Name):
-            return "OpUnknown", "coef argument is not a name"
-        vals = _assignments(outer, coef_arg.id)
-        if not vals:
-            return "OpUnknown", "coef unbound"
-        kinds = set()
-        for v in vals:
-            k = None if isinstance(v, tuple) else _const_kind(v)
-            if k is None:
-                return "OpUnknown", "coef bound to a non-literal"
-            kinds.add(k)
+        info = _factory_local(funcs[0], node.id, module)
+        if isinstance(info, str):
+            return "OpUnknown", info
+        cname, kinds, vals = info
         if "imag" in kinds:
             return "OpDivImag", "coef in {%s}" % ", ".join(sorted(ast.unparse(v) for v in vals))
         return "OpRealScaled", "coef real"
     return "OpUnknown", type(node).__name__
 
 
-def classify_dt(node):
+def classify_dt(node, coef_name=None):
+    # <name> / <c>  with the very coefficient name whose cancellation was verified for the operator
+    if coef_name is not None and isinstance(node, ast.BinOp) and isinstance(node.op, ast.Div) and isinstance(node.left, ast.Name) \
+            and isinstance(node.right, ast.Name) and node.right.id == coef_name and node.left.id != coef_name:
+        return "DtOverCoef"
     # (+-1j) * name / int
     if isinstance(node, ast.BinOp) and isinstance(node.op, ast.Div) and isinstance(node.right, ast.Constant) \
             and isinstance(node.right.value, int) and not isinstance(node.right.value, bool) and node.right.value != 0:
@@ -246,7 +287,7 @@ def scan(repo):
                 raise TranslateError("%s:%d: unsupported argument form" % (rel, c.lineno))
             funcs = _enclosing_funcs(c, par)
             op, why = classify_op(c.args[0], funcs, tree)
-            dt = classify_dt(c.args[1])
+            dt = classify_dt(c.args[1], why[len("coef="):] if op == "OpCoefCancelled" else None)
             sites.append({"file": rel, "line": c.lineno, "func": funcs[-1].name if funcs else "<module>",
                           "op": op, "dt": dt, "why": why, "op_src": ast.unparse(c.args[0])[:80], "dt_src": ast.unparse(c.args[1])[:60]})
     if not sites:
